@@ -59,6 +59,13 @@ type tsInfo struct {
 	sts           time.Time     // the time of last send ts
 	period        time.Duration // send ts period
 	targetMsgChan chan *api.ReplicateMsg
+
+	// the packs are put on targetMsgChan in the order in which their ticks were drawn under the channel lock:
+	// nextTicket is guarded by the channel lock, serving by sendLock
+	sendLock   sync.Mutex
+	sendCond   *sync.Cond
+	nextTicket uint64
+	serving    uint64
 }
 
 type tsManager struct {
@@ -262,16 +269,37 @@ func (m *tsManager) GetTargetMsgChan(replicateID string, channelName string) <-c
 	return ts.targetMsgChan
 }
 
-func (m *tsManager) SendTargetMsg(channelName string, msg *api.ReplicateMsg) {
-	m.channelTSLocks.RLock(channelName)
-	defer m.channelTSLocks.RUnlock(channelName)
-
+// UnsafeNextSendTicket should call the LockTargetChannel and UnLockTargetChannel before call this function.
+// The ticket fixes the place of a pack in the target channel at the moment its tick is drawn.
+func (m *tsManager) UnsafeNextSendTicket(channelName string) uint64 {
 	ts, ok := m.channelTS2.Get(channelName)
+	if !ok {
+		return 0
+	}
+	ticket := ts.nextTicket
+	ts.nextTicket++
+	return ticket
+}
+
+// SendTargetMsg puts the pack on the target channel when the packs with the earlier tickets are on it:
+// the channel lock is released before the (blocking) send, so without the tickets a pack with a later
+// tick could be enqueued first
+func (m *tsManager) SendTargetMsg(channelName string, ticket uint64, msg *api.ReplicateMsg) {
+	m.channelTSLocks.RLock(channelName)
+	ts, ok := m.channelTS2.Get(channelName)
+	m.channelTSLocks.RUnlock(channelName)
 	if !ok {
 		log.Panic("send target msg failed", zap.String("channelName", channelName))
 		return
 	}
+	ts.sendLock.Lock()
+	defer ts.sendLock.Unlock()
+	for ts.serving != ticket {
+		ts.sendCond.Wait()
+	}
 	ts.targetMsgChan <- msg
+	ts.serving++
+	ts.sendCond.Broadcast()
 }
 
 func (m *tsManager) InitTSInfo(replicateID string, channelName string, p time.Duration, c uint64, channeBufferSize int) {
@@ -292,12 +320,14 @@ func (m *tsManager) InitTSInfo(replicateID string, channelName string, p time.Du
 		}
 		m.channelTSLocks.Unlock(replicateID)
 		targetChannelChan <- channelName
-		m.channelTS2.Insert(channelKey, &tsInfo{
+		info := &tsInfo{
 			cts:           c,
 			sts:           t,
 			period:        p,
 			targetMsgChan: make(chan *api.ReplicateMsg, channeBufferSize),
-		})
+		}
+		info.sendCond = sync.NewCond(&info.sendLock)
+		m.channelTS2.Insert(channelKey, info)
 		return
 	}
 	if ts.sts.After(t) {
